@@ -267,7 +267,8 @@ class ScaleDriver:
     def call(self, op, n):
         # arguments: 0..n-1 for forward operations, radii 1..n for inverse-type operations
         x = np.arange(n, dtype=float) + (1.0 if op in ("inverse", "deriv_inverse") else 0.0)
-        e = {"ev": "Call", "op": op, "xmax": int(np.max(x)) if np.isfinite(np.max(x)) else -7, "bpre": self._b(self.tf), "bpost": 0, "pure": True, "exc": ""}
+        e = {"ev": "Call", "op": op, "xmax": int(np.max(x)) if np.isfinite(np.max(x)) else -7, "bpre": self._b(self.tf), "bpost": 0, "pure": True,
+             "dep": False, "exc": ""}
         try:
             with warnings.catch_warnings():
                 warnings.simplefilter("ignore")
@@ -277,6 +278,10 @@ class ScaleDriver:
                 fresh = self.cls(*self.args, b=bnow)
                 ref = self._do(fresh, op, x)
                 e["pure"] = bool(np.array_equal(got, ref, equal_nan=True))
+                # does this operation use the scale at all?  (two explicit scales give different results)
+                r1 = self._do(self.cls(*self.args, b=3.0), op, x)
+                r2 = self._do(self.cls(*self.args, b=11.0), op, x)
+                e["dep"] = not bool(np.array_equal(r1, r2, equal_nan=True))
         except Exception as ex:
             e["exc"] = type(ex).__name__
         self.events.append(e)
